@@ -139,6 +139,7 @@ pub fn cmd_worker(a: &[String]) -> i32 {
     let mut viol_count = 0u64;
     let mut known_hits: BTreeMap<String, u64> = BTreeMap::new();
     let mut seen_sigs: HashSet<String> = HashSet::new();
+    let mut sig_counts: BTreeMap<String, u64> = BTreeMap::new();
     let mut samples: Vec<Value> = Vec::new();
     let mut digests: Vec<String> = Vec::new();
     let mut new_keys_last_decile = 0u64;
@@ -186,6 +187,7 @@ pub fn cmd_worker(a: &[String]) -> i32 {
                 *known_hits.entry(f.signature.clone()).or_insert(0) += 1;
             } else {
                 viol_count += 1;
+                *sig_counts.entry(sig.clone()).or_insert(0) += 1;
                 if seen_sigs.insert(sig.clone()) && (violations.len() as u64) < w.max_viol {
                     // minimise while the same signature persists
                     let engine = prop.engine;
@@ -236,6 +238,7 @@ pub fn cmd_worker(a: &[String]) -> i32 {
         "violations": violations,
         "violation_count": viol_count,
         "known_hits": known_hits,
+        "sig_counts": sig_counts,
         "samples": samples,
         "new_keys_last_decile": new_keys_last_decile,
         "wall_s": t0.elapsed().as_secs_f64(),
@@ -339,6 +342,7 @@ pub struct BatchResult {
     pub new_keys_last_decile: u64,
     pub harness_errors: Vec<String>,
     pub digests: Vec<String>,
+    pub sig_counts: BTreeMap<String, u64>,
 }
 
 #[allow(clippy::too_many_arguments)]
@@ -381,6 +385,7 @@ pub fn run_batch(
         new_keys_last_decile: 0,
         harness_errors: Vec::new(),
         digests: Vec::new(),
+        sig_counts: BTreeMap::new(),
     };
     let mut keys: HashSet<u64> = HashSet::new();
     let mut done: Vec<bool> = vec![false; slots.len()];
@@ -401,6 +406,11 @@ pub fn run_batch(
         if let Some(m) = v["probes"].as_object() {
             for (k, n) in m {
                 *res.probes.entry(k.clone()).or_insert(0) += n.as_u64().unwrap_or(0);
+            }
+        }
+        if let Some(m) = v["sig_counts"].as_object() {
+            for (k, n) in m {
+                *res.sig_counts.entry(k.clone()).or_insert(0) += n.as_u64().unwrap_or(0);
             }
         }
         if let Some(m) = v["known_hits"].as_object() {
@@ -630,6 +640,11 @@ pub fn cmd_run(a: &[String]) -> i32 {
         println!("VIOLATION property={} replay={}", prop.id, path.display());
         replay_paths.push(path.display().to_string());
         exit = 1.max(exit);
+    }
+    if keep_going {
+        for (sig, n) in &res.sig_counts {
+            println!("  {n:>8}  {sig}");
+        }
     }
     for e in &res.harness_errors {
         eprintln!("HARNESS ERROR: {e}");
